@@ -87,7 +87,14 @@ impl Job {
                 if self.set {
                     m.insert(row.as_bytes().to_vec(), 0);
                 } else {
-                    let (k, v) = row.split_once(',').unwrap();
+                    // a row is `key,value`; a key may be a quoted CSV field ("x,y" / "q""r")
+                    let (k, v): (String, &str) = if let Some(rest) = row.strip_prefix('"') {
+                        let end = rest.rfind("\",").unwrap();
+                        (rest[..end].replace("\"\"", "\""), &rest[end + 2..])
+                    } else {
+                        let (k, v) = row.split_once(',').unwrap();
+                        (k.to_string(), v)
+                    };
                     let v: u64 = v.parse().unwrap();
                     m.entry(k.as_bytes().to_vec())
                         .and_modify(|x| {
@@ -612,6 +619,20 @@ fn grid_jobs(tier: Tier) -> Vec<Job> {
             }
         }
     }
+    // keys that a lenient reader could normalise away: leading / trailing blanks and
+    // tabs, inner blanks, upper case, non-ASCII, quoted CSV fields with commas and quotes
+    {
+        let rows: Vec<String> = [" a,1", "a,2", "a\t,4", "a ,8", "\u{e9},16", "A,32", "a b,64", "\"x,y\",3", "\"q\"\"r\",5", "  ,7", "a,128"].iter().map(|s| s.to_string()).collect();
+        let lines: Vec<String> = [" a", "a", "a\t", "a ", "\u{e9}", "A", "a b", "x,y", "q\"r", "  ", "a"].iter().map(|s| s.to_string()).collect();
+        for (batch, fd, threads) in [(1u32, 2u32, 1u32), (2, 2, 2), (3, 3, 2), (11, 2, 1)] {
+            for mode in ["sum", "max", "min"] {
+                v.push(Job { set: false, mode: mode.into(), files: vec![rows.clone()], batch, fd, threads, explore: false, cap_s: 60, bound: None, nonl: false });
+                v.push(Job { set: false, mode: mode.into(), files: vec![rows[..5].to_vec(), rows[5..].to_vec()], batch, fd, threads, explore: false, cap_s: 60, bound: None, nonl: false });
+            }
+            v.push(Job { set: true, mode: "sum".into(), files: vec![lines.clone()], batch, fd, threads, explore: false, cap_s: 60, bound: None, nonl: false });
+            v.push(Job { set: true, mode: "sum".into(), files: vec![lines[..4].to_vec(), lines[4..].to_vec()], batch, fd, threads, explore: false, cap_s: 60, bound: None, nonl: true });
+        }
+    }
     // large numbers of batches (default schedule): rounds with 60..260 items
     for n in [60usize, 64, 65, 66, 67, 68, 69, 70, 100, 129, 200, 260] {
         for (fd, threads) in [(2u32, 1u32), (2, 2), (3, 3), (4, 4), (15, 2)] {
@@ -978,7 +999,7 @@ fn main() {
         tier,
         st,
         &rep,
-        "SCHED: the real cmd::map::run / cmd::set::run (merge.rs, util.rs, app.rs included by path) run in-process; every channel send/receive, spawn and thread exit is a scheduling point; for each listed (input, batch size, fd-limit, threads, merge mode) ALL interleavings are explored with happens-before state caching; additionally, for some configurations, every schedule with at most k deviations from the default schedule (k = 1..3, delay bounding) is explored statelessly (no cache, hence no assumption about shared state); in every complete execution: exit Ok, no deadlock, output opens, verifies, conforms to the v3 format (independent decoder), content == model merge (sum/max/min per key over all rows; distinct lines for sets), bytes identical across all schedules; configuration grid under the default schedule: every row sequence of length <= 3 (thorough 4) over {a,1 a,2 b,1 b,2} (sets: {a,b,ab}) x batch 1..R x fd-limit 2..4 x threads 1..4 x 3 modes x one/two/three input files (incl. an empty file in first, middle and last position); input files without a final newline; rounds of 60..260 batches (default schedule; deadlocks are detected as 'no enabled thread'); many-batches family: 5..24 (thorough 40) rows with batch size 1 x fd-limit 2..4 x threads {1,2,4,8,16} with distinct keys, keys repeated in three batches (3 modes) and line sets; plus byte identity with the --sorted build and a library build for inputs without repeated keys; the real binary free-running on a subset, each configuration three ways: fresh output path; an existing, longer output file (--force); the first input through /dev/stdin fed by a pipe. non-trivial = distinct happens-before states of explored configurations".into(),
+        "SCHED: the real cmd::map::run / cmd::set::run (merge.rs, util.rs, app.rs included by path) run in-process; every channel send/receive, spawn and thread exit is a scheduling point; for each listed (input, batch size, fd-limit, threads, merge mode) ALL interleavings are explored with happens-before state caching; additionally, for some configurations, every schedule with at most k deviations from the default schedule (k = 1..3, delay bounding) is explored statelessly (no cache, hence no assumption about shared state); in every complete execution: exit Ok, no deadlock, output opens, verifies, conforms to the v3 format (independent decoder), content == model merge (sum/max/min per key over all rows; distinct lines for sets), bytes identical across all schedules; configuration grid under the default schedule: every row sequence of length <= 3 (thorough 4) over {a,1 a,2 b,1 b,2} (sets: {a,b,ab}) x batch 1..R x fd-limit 2..4 x threads 1..4 x 3 modes x one/two/three input files (incl. an empty file in first, middle and last position); input files without a final newline; rows whose keys have leading / trailing blanks and tabs, inner blanks, upper case, non-ASCII characters, quoted CSV fields with commas and quotes; rounds of 60..260 batches (default schedule; deadlocks are detected as 'no enabled thread'); many-batches family: 5..24 (thorough 40) rows with batch size 1 x fd-limit 2..4 x threads {1,2,4,8,16} with distinct keys, keys repeated in three batches (3 modes) and line sets; plus byte identity with the --sorted build and a library build for inputs without repeated keys; the real binary free-running on a subset, each configuration three ways: fresh output path; an existing, longer output file (--force); the first input through /dev/stdin fed by a pipe. non-trivial = distinct happens-before states of explored configurations".into(),
         vec![
             "threads of merge.rs interact only through the channels (immutable Arcs otherwise); files are written by one batch and read only in later generations; checked by the unique-file-name trace".into(),
             "two prefixes with equal per-thread histories (incl. identities of received messages) are the same Mazurkiewicz trace and have the same futures".into(),
